@@ -696,7 +696,7 @@ pub fn run(tier: &str, replay: Option<Value>) -> ! {
     if let Some(case) = replay {
         rep.replay_mode = true;
         let case = if case.get("case").is_some() { case["case"].clone() } else { case };
-        if case["engine"].as_str() == Some("ehist") {
+        if case["engine"].as_str() == Some("ehist") && case["part"].as_str() != Some("locked") {
             match replay_case(&case, &cfgs) {
                 Ok(found) => {
                     for f in found {
